@@ -1,7 +1,7 @@
 (* Properties/C02.v — Parallel PBF decoding preserves file order under every schedule.
    Statements only; proofs are in Pipeline/Proofs*.v over the LTS of Pipeline/Model.v. *)
 From Coq Require Import ZArith List Bool Arith Lia.
-From Verif Require Import Pipeline.Model Pipeline.Exec Pipeline.ProofsBasic Pipeline.ProofsChain Pipeline.ProofsOrder Pipeline.ProofsLive Pipeline.ProofsErr Pipeline.ProofsLive2 Pipeline.Theorems Pipeline.Witness.
+From Verif Require Import Pipeline.Model Pipeline.Exec Pipeline.ProofsBasic Pipeline.ProofsChain Pipeline.ProofsOrder Pipeline.ProofsLive Pipeline.ProofsErr Pipeline.ProofsLive2 Pipeline.ProofsPos Pipeline.Theorems Pipeline.Witness.
 Import ListNotations.
 
 (* 1. THE ORDER THEOREM.  For every decoder count n >= 1, every input (blocks, undecodable blocks,
@@ -25,6 +25,33 @@ Theorem C02_scans_are_prefix : forall c sched,
   exists t, scan_vals (snd (run c sched (init c))) ++ t = expected (c_inp c).
 Proof. exact scans_are_prefix. Qed.
 Print Assumptions C02_scans_are_prefix.
+
+(* 1b. THE POSITION TAG TRAVELS WITH ITS OWN BLOCK (Pipeline/ProofsPos.v; used by C09 for the
+   reported offsets: decode.go copies p.Offset into the oPair next to the decoded objects, the LTS
+   carries [o_pos]).  In every reachable state the j-th pair waiting in the ordered queue is the
+   result of file position c_cnt + j, and the pair the consumer takes next carries position c_cnt
+   together with exactly that block's objects and error. *)
+Theorem C02_ordered_queue_holds_own_blocks : forall c, 1 <= c_n c -> wf_input (c_inp c) = true ->
+  c_recheck c = true -> c_nextctx c = true ->
+  forall s, reach c s -> forall j p, nth_error (oq s) j = Some p ->
+  p = decode (c_cnt s + j, rd (c_inp c) (c_cnt s + j)).
+Proof. exact oq_holds_own_blocks. Qed.
+Print Assumptions C02_ordered_queue_holds_own_blocks.
+
+Theorem C02_pair_carries_own_position : forall c, 1 <= c_n c -> wf_input (c_inp c) = true ->
+  c_recheck c = true -> c_nextctx c = true ->
+  forall s p q, reach c s -> oq s = p :: q ->
+  o_pos p = c_cnt s /\ o_objs p = objs_of (rd (c_inp c) (c_cnt s)) /\ o_err p = err_of (rd (c_inp c) (c_cnt s)).
+Proof. exact next_takes_own_block. Qed.
+Print Assumptions C02_pair_carries_own_position.
+
+Theorem C02_taken_pair_is_own_block : forall c, 1 <= c_n c -> wf_input (c_inp c) = true ->
+  c_recheck c = true -> c_nextctx c = true ->
+  forall s s' o, reach c s -> step c LCo s = Some (s', o) -> c_cnt s' = S (c_cnt s) ->
+  exists p, oq s = p :: oq s' /\ o_pos p = c_cnt s /\
+            o_objs p = objs_of (rd (c_inp c) (c_cnt s)) /\ o_err p = err_of (rd (c_inp c) (c_cnt s)).
+Proof. exact taken_pair_is_own_block. Qed.
+Print Assumptions C02_taken_pair_is_own_block.
 
 (* ENVIRONMENT ASSUMPTION of 2, 2b (and of the C07 termination theorems): every call of the underlying
    io.Reader.Read, of dataDecoder.Decode and of the user's Filter* callbacks RETURNS: in the model the
